@@ -368,6 +368,56 @@ where
                     judge(&e, run_alt(&e), true);
                 });
                 run.distinct_many(alts.iter().map(|(si, pos, v)| fnv(format!("c/{name}/{na}/{vi}/{si}/{pos}/{v}").as_bytes())));
+                // length alterations of every message: bytes appended (1, one field element, one 32-byte seed; zeros,
+                // 0xA5 or a copy of the message's own tail) or removed from the end — an altered message must not
+                // complete verification everywhere
+                {
+                    let esz = F::ENCODED_SIZE;
+                    let mut lalts: Vec<(usize, String, i64, u8)> = vec![]; // (site, label, +append/-truncate length, fill: 0, 0xA5, 1 = own tail)
+                    for (si, (_, _, _, len)) in sites.iter().enumerate() {
+                        for k in [1usize, esz, 32] {
+                            for fill in [0u8, 0xA5, 1] {
+                                if fill == 1 && *len < k {
+                                    continue;
+                                }
+                                lalts.push((si, format!("append {k} bytes ({})", ["zeros", "own tail", "0xA5"][match fill { 0 => 0, 1 => 1, _ => 2 }]), k as i64, fill));
+                            }
+                            if *len >= k {
+                                lalts.push((si, format!("drop the last {k} bytes"), -(k as i64), 0));
+                            }
+                        }
+                    }
+                    par::for_each(lalts.len() as u64, |li| {
+                        let (si, label, delta, fill) = &lalts[li as usize];
+                        let (k, r, a, _) = sites[*si];
+                        let tam = |kind: &str, round: usize, agg: usize, bytes: &[u8]| -> Option<Vec<u8>> {
+                            if kind == k && round == r && (a == agg || kind == "public_share" || kind == "verifier_message") {
+                                let mut o = bytes.to_vec();
+                                if *delta < 0 {
+                                    o.truncate(o.len().saturating_sub((-*delta) as usize));
+                                } else {
+                                    let n = *delta as usize;
+                                    let ext: Vec<u8> = match fill { 1 => o[o.len().saturating_sub(n)..].to_vec(), f => vec![*f; n] };
+                                    o.extend(ext);
+                                }
+                                Some(o)
+                            } else {
+                                None
+                            }
+                        };
+                        run.count("evaluations", 1);
+                        run.count("length_alterations", 1);
+                        let case = || json!({"spec": spec.name(), "p": p.to_string(), "aggs": na, "proofs": np, "layer": "c-length", "message": k, "agg": a, "alteration": label});
+                        match verify_report::<P3<T>, 32>(&honest, &vk, &ctx, &(), &nonce, &ps, &shares, &VerifyOpts::tamper(&tam)) {
+                            Ok(_) => run.fail(&format!("c/{name}/length_alteration_undetected/{k}"), &format!("{name}: {k}[agg {a}] altered in transit ({label}) and verification still completed at all {na} aggregators"), case()),
+                            Err(Failure { stage, msg }) => {
+                                if let Stage::Panic(w) = &stage {
+                                    run.fail(&format!("c/{name}/panic/{w}"), &format!("{name}: {k}[agg {a}] {label} made {w} panic: {msg}"), case());
+                                }
+                            }
+                        }
+                    });
+                }
                 // pairs of alterations (thorough): one from each of two different messages
                 if full {
                     let stride = (alts.len() / 300).max(1);
@@ -611,6 +661,10 @@ fn main() {
     build::<Field128, _>(&Spec::SumVec { max: 3, len: 3, chunk: 4 }, l(vec![2, 3], vec![1], tl, nk)).unwrap();
     build::<Field128, _>(&Spec::Histogram { len: 4, chunk: 3 }, l(vec![2, 3], vec![1, 2], tl, nk)).unwrap();
     build::<Field128, _>(&Spec::Multihot { len: 3, max_weight: 2, chunk: 2 }, l(vec![2], vec![1], tl, nk)).unwrap();
+    // the number of buckets is a multiple of the chunk length, the encoded length (buckets + weight bits) is not
+    build::<Field128, _>(&Spec::Multihot { len: 4, max_weight: 2, chunk: 4 }, l(vec![2], vec![1], TamperLevel::Light, nk)).unwrap();
+    build::<Field128, _>(&Spec::Multihot { len: 3, max_weight: 1, chunk: 3 }, l(vec![2], vec![1], TamperLevel::Light, nk)).unwrap();
+    build::<Field128, _>(&Spec::L1 { max: 3, len: 3, chunk: 2 }, l(vec![2], vec![1], TamperLevel::Light, nk)).unwrap();
     build::<Field128, _>(&Spec::L1 { max: 3, len: 2, chunk: 3 }, l(vec![2], vec![1], tl, nk)).unwrap();
     // exactly one joint-randomness element (the whole encoding fits one chunk)
     build::<Field128, _>(&Spec::Histogram { len: 3, chunk: 4 }, l(vec![2, 3], vec![1, 2], tl, nk)).unwrap();
